@@ -5,7 +5,10 @@ import UberjobModel.Props.C03
 #print axioms Uberjob.Cache.C03_write_value
 #print axioms Uberjob.Cache.C03_end_to_end
 #print axioms Uberjob.Cache.C03_end_to_end_norm
+#print axioms Uberjob.Cache.C03_end_to_end_prod
 #print axioms Uberjob.Cache.ExQ.isStale_isolated
 #print axioms Uberjob.Cache.ExQ.exQ_setup
 #print axioms Uberjob.Cache.ExQ.exQ_run
 #print axioms Uberjob.Cache.ExQ.exQ_start
+#print axioms Uberjob.Cache.ExR.exR_setup
+#print axioms Uberjob.Cache.ExR.exR_run
